@@ -938,6 +938,11 @@ class SMTPClient(basic.LineReceiver, policies.TimeoutMixin):
     # None, perform no timeout checking.
     timeout = None
 
+    # The last byte of the message data handed to the transport so far, as
+    # remembered by transformChunk (a message starts at the beginning of a
+    # line).
+    _lastChunkByte = b"\n"
+
     def __init__(self, identity, logsize=10):
         if isinstance(identity, str):
             identity = identity.encode("ascii")
@@ -1075,6 +1080,8 @@ class SMTPClient(basic.LineReceiver, policies.TimeoutMixin):
             self.sendLine(b"RCPT TO:" + quoteaddr(self.lastAddress))
 
     def smtpState_data(self, code, resp):
+        # The message starts at the beginning of a line.
+        self._lastChunkByte = b"\n"
         s = basic.FileSender()
         d = s.beginFileTransfer(self.getMailData(), self.transport, self.transformChunk)
 
@@ -1109,12 +1116,22 @@ class SMTPClient(basic.LineReceiver, policies.TimeoutMixin):
         being made sending the message body, the client will not time out.
         """
         self.resetTimeout()
-        return chunk.replace(b"\n", b"\r\n").replace(b"\r\n.", b"\r\n..")
+        chunk = chunk.replace(b"\n", b"\r\n").replace(b"\r\n.", b"\r\n..")
+        if chunk[:1] == b"." and self._lastChunkByte == b"\n":
+            # The message is transformed piece by piece: a period at the very
+            # start of the message, or right after the newline which ended
+            # the previous chunk, is a leading period as well.
+            chunk = b"." + chunk
+        if chunk:
+            self._lastChunkByte = chunk[-1:]
+        return chunk
 
     def finishedFileTransfer(self, lastsent):
-        if lastsent != b"\n":
+        if lastsent and lastsent != b"\n":
             line = b"\r\n."
         else:
+            # Either the message ended with a newline or nothing was sent at
+            # all: the terminating period starts a line of its own already.
             line = b"."
         self.sendLine(line)
 
